@@ -468,6 +468,14 @@ def rdflib_writer_modes(ctx, rng):
                                           f"(header {data[:3].hex()}) are classified as the other mode"})
             try:
                 res[delimited] = sorted(T.norm_events(pj.parse("generic", "flat", data)), key=repr)
+                # ... and through every other entry point: the framing is detected the same way whoever reads the file
+                base_set = {repr(e) for e in res[delimited] if e[0] == "stmt"}
+                for integ2, entry2 in (("rdflib", "flat"), ("rdflib", "grouped"), ("generic", "grouped"), ("rdflib", "to_graph"), ("generic", "to_graph")):
+                    got2 = {repr(e) for e in T.norm_events(pj.parse(integ2, entry2, data)) if e[0] == "stmt"}
+                    ctx.observe(f"rdflib-writer-mode-read-through:{integ2}:{entry2}")
+                    if got2 != base_set:
+                        ctx.violation({"clause": "paired-parse-differs", "cfg": cfg, "stmts": T.to_json(stmts), "header": data[:3].hex(),
+                                       "summary": f"rdflib {entry} output (delimited={delimited}) read through {integ2}:{entry2} gives other statements"})
             except Exception as ex:  # noqa: BLE001
                 ctx.violation({"clause": "parse-raised", "cfg": cfg, "stmts": T.to_json(stmts), "header": data[:3].hex(),
                                "summary": f"rdflib {entry} output (delimited={delimited}) does not parse: {type(ex).__name__}"})
